@@ -80,6 +80,8 @@ func init() {
 	register("C07", "other", checkC07)
 	register("C10", "other", checkC10)
 	register("C13", "proof", checkC13)
+	register("C05", "other", checkC05)
+	register("C06", "other", checkC06)
 	register("XERR", "other", func(res *Result) {
 		p := loadPub()
 		E := computeEffects(p)
